@@ -30,3 +30,4 @@ THEOREMS["C09"] += ["Backend.C09_blocked_queue_drains", "Backend.C09_blocked_cal
 THEOREMS["C06"] += ["Backend.C06_flush_log_returns_concurrent_retry"]
 MODULES["C06"] += ["QuillModel.Props.C09Progress"]
 THEOREMS["C06"] += ["Backend.C06_flush_log_returns_concurrent_total"]
+THEOREMS["C06"] += ["Backend.C06_flush_not_overtaken_grace0", "Backend.C06_flush_log_returns_concurrent_explicit_grace0"]
